@@ -380,7 +380,30 @@ def body_pipeline(ctx, case):
     ctx.nontrivial(n_interp > 0 or bool(conv))
 
 
+def mixed_dtype_cases(ctx):
+    """Pipelines whose latent is *mixed-dtype*: a narrowing DtypeConversion that excludes one of two recorded arrays,
+    in front of (or around) the every-k filter, so one array is interpolated in half precision and the other in its own
+    dtype. Enumerated because the random sub meets this combination in ~2 % of its cases."""
+    n = 0
+    for k, T in ((3, 8), (4, 11), (5, 11), (7, 16)):
+        for s in (0, 1):
+            for narrow in ("float16", "bfloat16"):
+                for exclude in ("_H", "_E"):
+                    for layout in ("DF", "DFD"):
+                        n += 1
+                        if ctx.tier == "quick" and n % 2:
+                            continue
+                        mods = [{"type": "dtype", "dtype": narrow, "exclude": [exclude]}, {"type": "everyk", "k": k, "s": s}]
+                        if layout == "DFD":
+                            mods.append({"type": "dtype", "dtype": "float32"})
+                        yield {"T": T, "mods": mods, "seed": 4242 + n + 7919 * ctx.seed, "arrays": [
+                            {"name": "pml_E", "shape": [3, 2], "dtype": "float32", "scale": 1.0},
+                            {"name": "pml_H", "shape": [3, 2], "dtype": "float32", "scale": 30.0}]}
+
+
 SUBS = [
+    Sub(name="mixed_dtype", body=body_pipeline, cases=mixed_dtype_cases, lanes=("f32",), max_seconds_quick=120.0,
+        rule="enumerated mixed-dtype latents: narrowing conversion excluding one of two arrays x every-k filter"),
     Sub(name="everyk_exhaustive", body=body_exhaustive, cases=enumerate_triples, lanes=("f64",),
         exhaustive=True, exhaustive_quick=False, max_seconds_quick=150.0, quick_shards=2,
         rule="all (T<=40, k<=8, start<T) in the thorough tier, stratified slice in the quick tier; random history"),
